@@ -103,7 +103,18 @@ def build(node, owned=None):
         s1 = to_index(node["slices"][1], A.shape[1])
         s0, s1 = own(s0), own(s1)
         return A[s0, s1] if via == "fn" else ops.Sliced(A, (s0, s1))
-    Ms = [build(c, owned) for c in node["args"]]
+    if node.get("share"):
+        # identical part specs are built once: the very same operator object appears several times (A @ A, A @ B @ A, A + A)
+        import json
+        cache = {}
+        Ms = []
+        for c in node["args"]:
+            key = json.dumps(c, sort_keys=True)
+            if key not in cache:
+                cache[key] = build(c, owned)
+            Ms.append(cache[key])
+    else:
+        Ms = [build(c, owned) for c in node["args"]]
     if k == "Product":
         if via == "fn":
             out = Ms[0]
